@@ -52,11 +52,14 @@ NoLast == [p |-> FALSE, v |-> 0, w |-> 0, t |-> 0, dead |-> FALSE, amb |-> FALSE
 NoInv == [on |-> FALSE, targeted |-> {}, amb |-> {}, pre |-> {}, now |-> 0, settled |-> FALSE]
 NoPend == [on |-> FALSE, k |-> 0, v |-> 0, w |-> 0, fits |-> FALSE, fresh |-> FALSE,
            keep |-> {}, now |-> 0, pre |-> EmptySnap, rec |-> <<>>]
+\* C13: an insert of a new key issued at a quiescent point, and the keys invalidated between it
+\* and the sync() that applies the whole batch
+NoPend2 == [on |-> FALSE, gone |-> {}, p |-> NoPend]
 
 HInit(cfg) ==
     [cfg |-> cfg, last |-> [k \in 1..cfg.nkeys |-> NoLast], within |-> TRUE,
      rec |-> <<>>, vis |-> {}, visnow |-> 0,
-     inv |-> NoInv, pend |-> NoPend, growth |-> 0,
+     inv |-> NoInv, pend |-> NoPend, pend2 |-> NoPend2, growth |-> 0,
      \* concurrent cache: every state-changing call so far was followed by sync() ("eager" use);
      \* await: such a call has not been followed by its sync() yet; nget / napplied: get calls
      \* made and read records applied (C14)
@@ -384,14 +387,43 @@ Predicted(hs, pre, e) ==
     /\ P2Exists(hs, pre, e)
     /\ pre.fq[e.k] > SeqSum([i \in DOMAIN P2(hs, pre, e) |-> pre.fq[P2(hs, pre, e)[i]]])
 
+\* Beyond eager use, one shape of batch is judged: a new key inserted at a quiescent point, then
+\* invalidations of other keys, then the sync() that applies all of it (no read is pending, so the
+\* estimates of the contest are the ones read before the insert).  The statement leaves open
+\* whether the invalidated keys still count as residents in that contest (call order) or not
+\* (the order in which maintenance sees the map): the outcome is judged when both readings see a
+\* contest and predict the same.
+BatchReady(hs, e) ==
+    /\ IsSync(hs) /\ e.ev = "Sync" /\ hs.eager /\ hs.pend2.on /\ hs.pend2.gone # {}
+    /\ hs.pend2.p.fresh /\ hs.pend2.p.now = e.now
+    /\ Quiescent(e.snap) /\ ExcessOf(hs, hs.pend2.p.pre) = 0
+BatchHist(hs) == [hs EXCEPT !.rec = hs.pend2.p.rec,
+                            !.last = [k \in HKeys(hs) |-> [hs.last[k] EXCEPT !.accLo = hs.last[k].acc]]]
+\* call order: the invalidated keys were still residents when the newcomer arrived
+BatchHistA(hs) == [BatchHist(hs) EXCEPT
+                      !.last = [k \in HKeys(hs) |-> IF k \in hs.pend2.gone THEN [@[k] EXCEPT !.dead = FALSE] ELSE @[k]]]
+\* maintenance order: they had left the map
+BatchPreB(hs) == [hs.pend2.p.pre EXCEPT !.res = SelectSeq(@, LAMBDA r : r.k \notin hs.pend2.gone)]
+BatchEvent(hs, e) == [ev |-> "Insert", k |-> hs.pend2.p.k, v |-> hs.pend2.p.v, w |-> hs.pend2.p.w, now |-> e.now,
+                      snap |-> e.snap]
+BatchAgreed(hs, e) ==
+    /\ BatchReady(hs, e)
+    /\ IsContest(BatchHistA(hs), hs.pend2.p.pre, BatchEvent(hs, e))
+    /\ IsContest(BatchHist(hs), BatchPreB(hs), BatchEvent(hs, e))
+    /\ Predicted(BatchHistA(hs), hs.pend2.p.pre, BatchEvent(hs, e))
+          = Predicted(BatchHist(hs), BatchPreB(hs), BatchEvent(hs, e))
+
 Allowed_C13(hs, pre, e) ==
     /\ (e.ev = "Insert" /\ ~IsSync(hs) /\ IsContest(hs, pre, e)) =>
           ((e.k \in KeysIn(e.snap.res)) <=> Predicted(hs, pre, e))
     /\ (PairReady(hs, e) /\ IsContest(PairHist(hs), hs.pend.pre, PairEvent(hs, e))) =>
           ((hs.pend.k \in KeysIn(e.snap.res)) <=> Predicted(PairHist(hs), hs.pend.pre, PairEvent(hs, e)))
+    /\ BatchAgreed(hs, e) =>
+          ((hs.pend2.p.k \in KeysIn(e.snap.res)) <=> Predicted(BatchHistA(hs), hs.pend2.p.pre, BatchEvent(hs, e)))
 NT_C13(hs, pre, e) ==
     \/ e.ev = "Insert" /\ ~IsSync(hs) /\ IsContest(hs, pre, e)
     \/ PairReady(hs, e) /\ IsContest(PairHist(hs), hs.pend.pre, PairEvent(hs, e))
+    \/ BatchAgreed(hs, e)
 
 -----------------------------------------------------------------------------
 (* C14  (cache-level clause) only get is recorded, once                      *)
@@ -507,6 +539,11 @@ HUpdate(P, hs, pre, e) ==
                        fits |-> FitsPhys(hs, pre, e) /\ ExcessOf(hs, pre) = 0, fresh |-> e.k \notin KeysIn(pre.res),
                        keep |-> KeysIn(pre.res), now |-> e.now]
                  ELSE NoPend
+        trailing == e.ev = "Invalidate" /\ hs.pend2.on /\ e.k # hs.pend2.p.k /\ e.now = hs.pend2.p.now
+        pend2n == IF IsSync(hs) /\ e.ev = "Insert" /\ Quiescent(pre)
+                  THEN [on |-> TRUE, gone |-> {}, p |-> pend1]
+                  ELSE IF trailing THEN [hs.pend2 EXCEPT !.gone = @ \cup {e.k}]
+                  ELSE NoPend2
         growth1 == IF ~IsSync(hs) THEN 0
                    ELSE IF e.ev = "Sync" /\ Quiescent(e.snap) THEN 0
                    ELSE IF e.ev = "Insert" /\ e.k \in KeysIn(pre.res)
@@ -522,8 +559,10 @@ HUpdate(P, hs, pre, e) ==
                   !.visnow = IF needVis THEN e.now ELSE hs.visnow,
                   !.inv = IF needVis THEN inv1 ELSE hs.inv,
                   !.pend = IF needPend THEN pend1 ELSE hs.pend,
+                  !.pend2 = IF "C13" \in P THEN pend2n ELSE hs.pend2,
                   !.growth = IF "C04" \in P THEN growth1 ELSE hs.growth,
-                  !.eager = IF needRec /\ IsSync(hs) THEN (hs.eager /\ ~(changing /\ hs.await)) ELSE hs.eager,
+                  !.eager = IF needRec /\ IsSync(hs) THEN (hs.eager /\ ~(changing /\ hs.await /\ ~trailing))
+                            ELSE hs.eager,
                   !.await = IF needRec /\ IsSync(hs)
                             THEN (IF changing THEN TRUE ELSE IF e.ev = "Sync" THEN FALSE ELSE hs.await)
                             ELSE hs.await,
